@@ -16,6 +16,7 @@ const (
 	sigError     = 3
 	sigLookahead = 4
 	sigPartition = 5
+	sigFinal     = 6
 )
 
 func computeRuleClasses(t *Tables, g *Grammar) []int {
@@ -97,9 +98,19 @@ func partitionStatesByAction(t *Tables, ruleClass []int, numStates int) ([]int, 
 	partition := make([]int, numStates)
 	partitions := container.NewIntSliceSet()
 
+	final := container.NewBitSet(numStates)
+	for _, s := range t.FinalStates {
+		final.Set(s)
+	}
+
 	// Create the initial partitions
 	for i := 0; i < numStates; i++ {
 		sig := stateSignature(i)
+		if final.Get(i) {
+			// The parser stops as soon as it enters a final state, so these cannot be merged with
+			// regular states even when their actions and transitions are the same.
+			sig = append(sig, sigFinal)
+		}
 		partition[i] = partitions.Insert(sig)
 	}
 	return partition, partitions
